@@ -7,9 +7,10 @@ COQ_CASE_TYPE = "M_Select.case"
 COQ_CHECK = "M_Select.check_case"
 OBLIGATIONS = ["funnel_in_domain", "dsatuto_selects_in_domain", "adsa_selects_in_domain", "gdba_selects_in_domain",
                "dpop_selects_in_domain", "syncbb_selects_in_domain", "mgm_selects_in_domain",
-               "mgm2_selects_in_domain", "dsa_selects_in_domain", "dba_selects_in_domain",
+               "mgm2_selects_in_domain", "mgm2_messages_in_domain", "dsa_selects_in_domain",
+               "dba_selects_in_domain_partial", "dba_selects_in_domain_refuted",
                "maxsum_selects_in_domain", "amaxsum_selects_in_domain", "C10_all"]
-N_QUICK, N_THOROUGH = 330, 6600
+N_QUICK, N_THOROUGH = 660, 8800
 PARALLEL = 8
 SHARD = 120
 ALGOS = ["dpop", "syncbb", "mgm", "mgm2", "dsa", "adsa", "dsatuto", "dba", "gdba", "maxsum", "amaxsum"]
@@ -127,10 +128,11 @@ def gen(rng, n, tier):
 
 # ------------------------------------------------------------------ implementation driver
 def run_impl(case):
+    import contextlib
+    import io
     from harness.pydrv import select_drv
-    o = select_drv.run_case(case)
-    o.pop("sched_full", None)
-    return o
+    with contextlib.redirect_stdout(io.StringIO()):      # adsa print()s while it waits for its neighbours
+        return select_drv.run_case(case)
 
 
 # ------------------------------------------------------------------ oracle (independent: membership by ==)
